@@ -4,6 +4,7 @@
 import PygProofs.Lemmas.TableAbs
 
 namespace Pyg
+open Abs
 namespace Table
 
 /-- dependency order of an evaluation sequence: no callable reads a key that a LATER callable defines -/
@@ -116,7 +117,7 @@ theorem callLoop_order (fuel : Nat) (res t' : Table) (fns : List (String × Fn))
 
 /-! ### the only `ValueError` of the loop is the circular one -/
 
-theorem mapE_error_mem {α β ε} {f : α → Except ε β} {xs : List α} {e : ε} (h : mapE f xs = .error e) :
+theorem _root_.Pyg.Abs.mapE_error_mem {α β ε} {f : α → Except ε β} {xs : List α} {e : ε} (h : mapE f xs = .error e) :
     ∃ x ∈ xs, f x = .error e := by
   induction xs with
   | nil => cases h
